@@ -99,6 +99,13 @@ pub struct SchedReader {
 	pub sched: Sched,
 	pub fault: Option<usize>,
 	pub fault_kind: io::ErrorKind,
+	/// How the fault's error value is built: 0 = `io::Error::new(kind, text naming the offset)`, 1 = an OS error
+	/// (`from_raw_os_error(5)`, no boxed payload), 2 = the bare kind (`kind.into()`, no payload).
+	pub fault_style: u8,
+	/// The read call (counted from 0) that fails once with `ErrorKind::Interrupted` and changes nothing: a caller that
+	/// retries, as `Read`'s contract asks, sees the same stream.
+	pub interrupt_at: Option<usize>,
+	pub calls: usize,
 	/// (bytes delivered before the call) for every read call, when logging.
 	pub log: Option<std::rc::Rc<std::cell::RefCell<Vec<usize>>>>,
 }
@@ -111,11 +118,22 @@ impl SchedReader {
 			sched,
 			fault,
 			fault_kind: io::ErrorKind::Other,
+			fault_style: 0,
+			interrupt_at: None,
+			calls: 0,
 			log: None,
 		}
 	}
 	pub fn kind(mut self, kind: io::ErrorKind) -> SchedReader {
 		self.fault_kind = kind;
+		self
+	}
+	pub fn style(mut self, style: u8) -> SchedReader {
+		self.fault_style = style;
+		self
+	}
+	pub fn interrupt(mut self, at: Option<usize>) -> SchedReader {
+		self.interrupt_at = at;
 		self
 	}
 }
@@ -125,9 +143,18 @@ impl Read for SchedReader {
 		if let Some(log) = &self.log {
 			log.borrow_mut().push(self.deliv);
 		}
+		let call = self.calls;
+		self.calls += 1;
+		if self.interrupt_at == Some(call) {
+			return Err(io::Error::new(io::ErrorKind::Interrupted, "interrupted once"));
+		}
 		if let Some(k) = self.fault {
 			if self.deliv >= k {
-				return Err(io::Error::new(self.fault_kind, format!("{FAULT_MARK}{k}")));
+				return Err(match self.fault_style {
+					1 => io::Error::from_raw_os_error(5),
+					2 => self.fault_kind.into(),
+					_ => io::Error::new(self.fault_kind, format!("{FAULT_MARK}{k}")),
+				});
 			}
 		}
 		let end = match self.fault {
